@@ -548,3 +548,36 @@ Lemma option_sections :
      ("initial_radius", Some "SimpleBounds"); ("steptol", Some "SimpleBounds");
      ("enlarging_factor", Some "SimpleBounds"); ("dogleg", Some "TrustRegion")]%string.
 Proof. vm_compute. reflexivity. Qed.
+
+(* the starting point after `if self.save_iterations: self._load_saved_iteration()`: the k-th free parameter starts at the
+   value the restart file gives to its name, otherwise at its declared start; without the option, or when the file cannot
+   be read, nothing changes *)
+Lemma overlay_nth : forall names vals d k,
+  (k < List.length names)%nat -> List.length vals = List.length names ->
+  nth k (overlay names vals d) 0 =
+  match assoc (nth k names ""%string) d with Some w => w | None => nth k vals 0 end.
+Proof.
+  induction names as [|n names IH]; intros [|v vals] d k Hk HL; cbn in *; try lia.
+  destruct k as [|k]; [reflexivity|]. apply IH; lia.
+Qed.
+
+Lemma restart_start : forall si saved s k,
+  let i := st_idm s in
+  (k < List.length (free_names i))%nat -> List.length (free_values i) = List.length (free_names i) ->
+  nth k (free_values (st_idm (load_saved si saved s))) 0 =
+  match (if si then saved else None) with
+  | Some d => match assoc (nth k (free_names i) ""%string) d with Some w => w | None => nth k (free_values i) 0 end
+  | None => nth k (free_values i) 0
+  end.
+Proof.
+  intros si saved s k i Hk HL. unfold load_saved.
+  destruct si; [|reflexivity]. destruct saved as [d|]; [|reflexivity].
+  cbn. apply overlay_nth; assumption.
+Qed.
+
+(* ================================================================== objects used by the non-vacuity examples of Properties/C07.v *)
+Definition ex_ext : string -> unit -> objective -> vec -> option (list bound) -> opt_result :=
+  fun _ _ _ _ _ => mkOpt [1/2] true.
+Definition ex_state : state :=
+  mkState [[mkBeta "b" 0 None (Some 1) false; mkBeta "fix" 3 None None true; mkBeta "b" 0 None (Some 1) false]]
+          (mkIdm ["b"%string] [0] [(None, Some 1)]).
